@@ -24,9 +24,10 @@ EXPLANATION = (
     '360 v / (2 pi r); R6 height integration: z_base/z_velocity/z_base_time are re-based together, z = base + v (now - t0), written to '
     'index 3 of the hover set-point (vx, vy, yaw rate, z); R7 PositionHlCommander: duration = distance/velocity, go-to target (x,y,z), '
     'position updated to the target on the same branch, move_distance target = position + displacement, take-off/landing durations. '
-    'Real-time period and thread interleavings are not decided.')
+    'R8 the hover / stop set-points and the high-level take-off, land, go-to and stop commands the primitives are streamed through have the '
+    'firmware\'s field order, signs and formats for both protocol generations (shared with C08.R1). Real-time period and thread interleavings are not decided.')
 ASSUMPTIONS = ['documented axis convention: positive X forward, positive Y left, positive Z up', 'Thread.join() returns after run() returned']
-FLOORS = {'R1': 9, 'R2': 2, 'R3': 3, 'R4': 20, 'R5': 8, 'R6': 6, 'R7': 8}
+FLOORS = {'R1': 9, 'R2': 2, 'R3': 3, 'R4': 20, 'R5': 8, 'R6': 6, 'R7': 8, 'R8': 20}
 
 
 def seq_calls(func):
@@ -286,8 +287,16 @@ def check(ctx):
         a = f.params[1]
         ctx.inst('R7', f, 'default:' + fn, got == sorted([(('%s is self.DEFAULT' % a,), attr), (('not %s is self.DEFAULT' % a,), a)]), '%s falls back to %s only for DEFAULT; %s' % (fn, attr, got))
 
+    # ---- R8: the set-points the primitives are streamed through reach the firmware as commanded (shared with C08.R1) ----
+    from .c08 import sender_layout_for
+    CMD_, HLC_ = 'cflib/crazyflie/commander.py', 'cflib/crazyflie/high_level_commander.py'
+    sender_layout_for(ctx, [CMD_ + ':Commander.send_hover_setpoint', CMD_ + ':Commander.send_stop_setpoint', CMD_ + ':Commander.send_notify_setpoint_stop',
+                            HLC_ + ':HighLevelCommander.takeoff', HLC_ + ':HighLevelCommander.land', HLC_ + ':HighLevelCommander.go_to', HLC_ + ':HighLevelCommander.stop'], 'R8')
+
 
 VARIANTS = [
+    M('R8', 'cflib/crazyflie/commander.py', "            pk.data = struct.pack('<Bffff', TYPE_HOVER_LEGACY,\n                                  vx, vy, -yawrate, zdistance)", "            pk.data = struct.pack('<Bffff', TYPE_HOVER_LEGACY,\n                                  vx, vy, yawrate, zdistance)", 'legacy hover yaw sign'),
+
     M('R1', MC, "            self._thread.stop()\n            self._thread = None\n\n            self._cf.commander.send_stop_setpoint()", "            self._cf.commander.send_stop_setpoint()\n            self._thread.stop()\n            self._thread = None", 'thread stopped after stop set-point'),
     M('R1', MC, "            self._cf.commander.send_notify_setpoint_stop()\n", "", 'priority never released'),
     M('R1', MC, "                if event == self.TERMINATE_EVENT:\n                    return\n", "                if event == self.TERMINATE_EVENT:\n                    break\n", 'terminate breaks to send'),
